@@ -388,11 +388,25 @@ pub fn run_program(ops: &[Op], env: &ExecEnv) -> ExecOut {
     ExecOut { steps, final_res, end_pos, lives }
 }
 
-/// read an entire ZipFile with the given caller buffer sizes (cycled); returns bytes and the first error
+thread_local! {
+    /// set by `read_all` when it stopped reading before end-of-file or an error (byte cap reached, or no
+    /// progress for a million calls): the read did NOT complete, and no oracle may treat it as completed
+    pub static READ_GAVE_UP: std::cell::Cell<bool> = std::cell::Cell::new(false);
+}
+
+pub fn read_gave_up() -> bool {
+    READ_GAVE_UP.with(|c| c.get())
+}
+
+/// read an entire ZipFile with the given caller buffer sizes (cycled); returns bytes and the first error.
+/// `(bytes, None, _)` means end-of-file was reached unless `read_gave_up()` says otherwise.
 pub fn read_all<R: Read>(f: &mut R, bufs: &[u32], cap: u64) -> (Vec<u8>, Option<std::io::Error>, u64) {
+    READ_GAVE_UP.with(|c| c.set(false));
+    let gave_up = || READ_GAVE_UP.with(|c| c.set(true));
     let mut out = Vec::new();
     let mut i = 0usize;
     let mut calls = 0u64;
+    let mut idle = 0u64; // consecutive calls without progress
     let mut scratch = vec![0u8; 1 << 16];
     let mut zero_run = 0usize;
     loop {
@@ -413,18 +427,24 @@ pub fn read_all<R: Read>(f: &mut R, bufs: &[u32], cap: u64) -> (Vec<u8>, Option<
         match f.read(&mut scratch[..n]) {
             Ok(0) if n > 0 => return (out, None, calls),
             Ok(0) => {
-                if calls > 1_000_000 {
+                idle += 1;
+                if idle > 1_000_000 {
+                    gave_up();
                     return (out, None, calls);
                 }
             }
             Ok(k) => {
+                idle = 0;
                 out.extend_from_slice(&scratch[..k]);
                 if out.len() as u64 > cap {
+                    gave_up();
                     return (out, None, calls);
                 }
             }
             Err(e) if e.kind() == std::io::ErrorKind::Interrupted => {
-                if calls > 1_000_000 {
+                idle += 1;
+                if idle > 1_000_000 {
+                    gave_up();
                     return (out, Some(e), calls);
                 }
             }
